@@ -39,6 +39,19 @@ def updaterLine (st : UpRun) (lineNo : Nat) (line : String) : Except String (UpR
     let base := st.installs.size - 1
     let (bytes, bad) := st.installs[base]?.getD ([], false)
     let ok := get "ok" == "1"
+    -- a version installed while the initial value was being built: the notification must survive,
+    -- so the Get that follows creation rebuilds from the new bytes
+    match (lookup fs "midinstall").bind unhex with
+    | some v =>
+      let s0 := runEvs init [.initRead, .install, .initBuild]
+      let s1 := runEvs s0 [.drain, .readCur, .build true]
+      let outs := if ok && get "src" == hexBytes v then [] else
+        [s!"PROPFAIL C15 no_lost_update {tag} an install during the initial build was lost: src={get "src"} newest={hexBytes v}"]
+      let others := st.upds.map fun u => { u with st := runEvs u.st [.install] }
+      finish { st with installs := st.installs.push (v, false),
+                       upds := others.push { base := base, st := s1, alive := ok, lastGetInstalls := st.installs.size + 1, lastBuilds := s1.builds, lastId := s1.valueId } }
+        "newupd:midinstall" outs
+    | none =>
     let s0 := runEvs init [.initRead, .initBuild]
     let outs :=
       (if ok == !bad then [] else [s!"DIVERGE newupdater_result {tag} ok={get "ok"} bad={bad}"]) ++
